@@ -16,7 +16,7 @@ ASSUMPTIONS = [
     "expected bits: memoryless = input; DPSK family = input minus the first symbol's group; OQPSK = in-phase bit of symbol i, quadrature bit of symbol i-1 (first quadrature output unconstrained); pi/4-QPSK = input",
     "comparison on bit values after rounding, dtype-agnostic; training-mode state carry-over is not judged",
 ]
-REQUIRED = ["roundtrip bits", "symbol count", "eval-mode state does not carry over", "roundtrip after training-mode use + reset"]
+REQUIRED = ["roundtrip bits", "symbol count", "eval-mode state does not carry over", "roundtrip after training-mode use + reset", "symbols independent of the bit dtype"]
 JOBS = {"quick": 4, "thorough": 16}
 TIMEOUT = {"quick": 900, "thorough": 3600}
 
@@ -173,6 +173,26 @@ def run_unit(ctx, u):
         except Exception as e:  # noqa: BLE001
             ctx.violation(f"{kc}|(B,L)|roundtrip after training-mode use + reset|raised:{type(e).__name__}", spec=s, error=str(e)[:200])
 
+    # other dtypes of the same bits (a modulator that accepts them must send the same symbols: unsigned or narrow
+    # integer arithmetic must not leak into the mapping)
+    row = [rng.getrandbits(1) for _ in range(8 * b)]
+    row[0], row[1] = 1, 0
+    modems.fresh(mod, dem)
+    try:
+        y_ref = mod(torch.tensor([row], dtype=torch.float32))
+    except Exception:  # noqa: BLE001
+        y_ref = None
+    if y_ref is not None:
+        for dt in (torch.float64, torch.int64, torch.int32, torch.int8, torch.uint8, torch.bool):
+            modems.fresh(mod, dem)
+            ctx.case(modems.cfg(s), "dtype", str(dt))
+            try:
+                y = mod(torch.tensor([row], dtype=torch.float32).to(dt))
+            except Exception:  # noqa: BLE001
+                ctx.skip(f"modulator rejects dtype {str(dt).replace('torch.', '')}")
+                continue
+            same = tuple(y.shape) == tuple(y_ref.shape) and bool(torch.allclose(y.to(y_ref.dtype) if y.dtype != y_ref.dtype and y.is_complex() == y_ref.is_complex() else y, y_ref, rtol=1e-5, atol=1e-6)) if y.is_complex() == y_ref.is_complex() else False
+            ctx.check(same, "symbols independent of the bit dtype", f"{kc}|(B,L)|symbols independent of the bit dtype|{str(dt).replace('torch.', '')} bits give other symbols", spec=s, bits=row[:16], symbols=y.flatten()[:6], expected=y_ref.flatten()[:6])
     # eval-mode: state must not carry over between calls (reset -> call -> call gives equal answers)
     row = [rng.getrandbits(1) for _ in range(6 * b)]
     x = torch.tensor([row], dtype=torch.float32)
